@@ -223,7 +223,7 @@ def run(ctx):
                                   {"schedule": park, "fen": f, "tsan": block[:3000]}, key="c06:tsan:" + park)
                     break
                 nrace_other += 1
-        if o["bestmove"] is None and not o.get("finished_early"):
+        if o.get("bestmove") is None and not o.get("finished_early"):
             nviol += 1
             ctx.violation("TSan build: no bestmove after stop [%s]" % park, {"schedule": park, "outcome": {k: v for k, v in o.items() if k != "stderr"}}, key="c06:tsan-nobest:" + park)
     ctx.cov["evaluations"] = nstop + len(scheds) + len(tsched)
